@@ -497,3 +497,10 @@ B('C18', 'integer rounding through float division', 'smt/veriT/la_generic.py',
 B('C19', 'sign of a constant tested before the fraction test', 'integral/expr.py',
   "            if isinstance(self.val, Fraction) and self.val.denominator != 1:\n                return op_priority['/']\n            elif self.val < 0:\n                # return 80  # priority of uminus\n                return 74",
   "            if self.val < 0:\n                # return 80  # priority of uminus\n                return 74\n            elif isinstance(self.val, Fraction) and self.val.denominator != 1:\n                return op_priority['/']", 'C19.E3', 'fraction-constant')
+B('C10', 'monomial comparison stops after the first factor', 'util/poly.py',
+  "                return compare_fst(p1[0][i], p2[0][i])\n        return 0", "                return compare_fst(p1[0][i], p2[0][i])\n            return 0", 'C10.V5', 'compare_fst')
+B('C18', 'ite_intro ignores the first conjunct', 'smt/veriT/verit_macro.py',
+  "        rhs_conjs = rhs.strip_conj()\n        if rhs_conjs[0] != lhs and not compare_sym_tm(rhs_conjs[0], lhs):\n            raise VeriTException(\"ite_intro\", \"unexpected goal\")\n        expected_ites = rhs_conjs[1:]",
+  "        expected_ites = rhs.strip_conj()[1:]", 'C18.R5', 'verit_ite_intro')
+B('C18', 'let drops hypotheses without consulting the premises', 'smt/veriT/verit_macro.py',
+  "                if hyp.rhs != t and (t, hyp.rhs) not in ctx:\n                    raise VeriTException(\"let\", \"hypothesis %s is not justified\" % hyp)\n", "                pass\n", 'C18.R6', 'verit_let')
